@@ -15,6 +15,9 @@ pub struct ReqCoord {
 
 pub fn valid_coords(seed: u64, thorough: bool) -> Vec<ReqCoord> {
     let mut fa = fstar();
+    // a few values with an all-zero / all-ones limb (every one of them in the thorough tier)
+    let lp = limb_patterns(seed);
+    fa.extend(lp.iter().step_by(if thorough { 1 } else { 3 }).cloned());
     let mut r = SplitMix(seed ^ 0xC01);
     for _ in 0..(if thorough { 3 } else { 1 }) {
         fa.push(r.field());
